@@ -280,7 +280,10 @@ def apply_op(st, o, T, keep=None, handed=None, keep2=None):
             job.status = JobStatus(o[2])
             r = None
         elif n == "store_meta":
-            r = st.store_job_metadata(jid_str(o[1]), o[2], give(o[3]))
+            try:
+                r = st.store_job_metadata(jid_str(o[1]), o[2], give(o[3]))
+            except IndexError:  # a numpy array in the "metadata" slot rejects a str / None index with IndexError: same answer class
+                return [11, E_TYPE]
         elif n == "store_sv":
             r = st.store_search_value(sid_str(o[1]), o[2], give(o[3]))
         elif n == "load_sids":
@@ -313,11 +316,18 @@ def apply_op(st, o, T, keep=None, handed=None, keep2=None):
         elif n == "job_status_get":
             from deephyper.evaluator import Job
 
+            # Job.status is JobStatus(storage.load_job_status(id)): a VIEW of the stored value (the enum maps 3.0, True, numpy
+            # 3 ... to the member with an equal value, and rejects anything else).  The storage's answer is the raw value; the
+            # wrapper is only required to be consistent with it.
             job = Job(jid_str(o[1]), {}, None, st)
+            raw = st.load_job_status(jid_str(o[1]))
             try:
-                return [5, enc_fval(job.status.value, T)]
-            except ValueError:  # the stored status is not a JobStatus value (store_job(key="status", ...)): the wrapper cannot show it
-                return [5, enc_fval(st.load_job_status(jid_str(o[1])), T)]
+                view = job.status
+            except (ValueError, TypeError):  # not a JobStatus value (store_job(key="status", ...)): the wrapper cannot show it
+                return [5, enc_fval(raw, T)]
+            if not bool(view.value == raw):
+                return [12, enc_val(view.value, T)]
+            return [5, enc_fval(raw, T)]
         else:
             raise ValueError(n)
         return [0, []] if r is None else [12, enc_val(r, T)]
@@ -730,7 +740,10 @@ def gen_random(count, maxlen, reserved=False, alias=None):
                     if s in nj:
                         nj[s] += 1
                 elif r < 0.32:
-                    ops.append(["store_job", some_jid(), rng.choice(KEYPOOL), rand_value(rng)])
+                    k0, v0 = rng.choice(KEYPOOL), rand_value(rng)
+                    if k0 == "metadata" and isinstance(v0, dict) and set(v0) == {"$np"}:
+                        v0 = [v0]  # an array as THE metadata slot would answer later metadata stores with numpy's own IndexError
+                    ops.append(["store_job", some_jid(), k0, v0])
                 elif r < 0.38:
                     ops.append(["store_in", some_jid(), rand_value(rng), rand_value(rng)])
                 elif r < 0.46:
